@@ -170,6 +170,29 @@ func runC04(c *Ctx) {
 			}
 		}
 	}
+	// identifiers outside ASCII (the type is xs:ID / NCName: letters of any script are legal): equality is on
+	// the whole string, byte for byte - not on the first byte of each character, not up to normalisation
+	{
+		const ou = "id-M\u00fcller-7f3a" // precomposed u-umlaut
+		near := []*string{sp(ou), sp("id-M\u00f6ller-7f3a"), sp("id-Mu\u0308ller-7f3a"), sp("id-M\u00fbller-7f3a"), sp("id-Muller-7f3a"), sp("id-M\u00fcller-7f3\u0430"), sp("id-\u041c\u00fcller-7f3a")}
+		for _, v := range near {
+			mk(cfg, []string{ou}, v, []*string{sp(ou)}, 0, nil, "non-ascii-id")
+			mk(cfg, []string{ou}, sp(ou), []*string{v}, 0, nil, "non-ascii-id")
+			mk(cfg, []string{*v}, sp(ou), []*string{sp(ou)}, 0, nil, "non-ascii-id")
+		}
+		for _, v := range near {
+			n++
+			rs, as := validSpecs(cfg, now, fmt.Sprintf("uni%d", n))
+			rs.IRT, as.Confs[0].IRT = sp(ou), sp(ou)
+			r := buildResponse(rs, buildAssertion(as))
+			ars := RespSpec{Tag: "ArtifactResponse", ID: fmt.Sprintf("ar-uni-%d", n), IRT: v, Issue: rs.Issue, Issuer: sp(cfg.IdpEntity), Status: sp(statusSuccess)}
+			ar := buildResponse(ars, r)
+			SignInto(ar, 0)
+			c.Count("class/non-ascii-id")
+			addRun(c, g, &Run{Cfg: cfg, IDs: []string{ou}, Now: now, Cur: cfg.AcsURL, Entry: 1, Rid: ou, Doc: soapWrap(ar)},
+				map[string]string{"class": "non-ascii-id", "ar_irt": irtName(v), "entry": "1"}, false)
+		}
+	}
 	spHistories(c, g)
 	randomCombinations(c, g, 400, false)
 	c04HTTP(c)
